@@ -282,6 +282,11 @@ func main() {
 					}
 				}
 			}
+			// a name with a slash from a parent and its tail from the child directory join to the same path
+			if r.Chance(60) {
+				files["/vr/app/m/node_modules/lib.js"] = jsmod()
+				files["/vr/app/m/w.js"] = jsmod(instr{op: "req", req: "lib", catch: true})
+			}
 			files["/vr/app/node_modules/x/y.js"] = jsmod(instr{op: "req", req: "m", catch: true})
 			files["/vr/app/sub/z.js"] = jsmod(instr{op: "req", req: "m", catch: true}, instr{op: "req", req: "../m", catch: true}, instr{op: "req", req: "./m", catch: true})
 			// drop package.json "main" cases whose target is missing (Node throws, the library keeps searching: outside the claim)
@@ -300,7 +305,7 @@ func main() {
 					}
 				}
 			}
-			reqs := []string{"./m", "m", "/vr/app/m", "../app/m", "./m.js", "./m/lib", "m/lib", "./sub/z", "x/y", "./sub/../m", "/vr/app/sub/m", "./nothing", "nothing", "./m/index"}
+			reqs := []string{"./m", "m", "/vr/app/m", "../app/m", "./m.js", "./m/lib", "m/lib", "m/lib", "./m/w", "./m/w.js", "./sub/z", "x/y", "./sub/../m", "/vr/app/sub/m", "./nothing", "nothing", "./m/index"}
 			ncalls := 2 + r.Intn(5)
 			for i := 0; i < ncalls; i++ {
 				calls = append(calls, [3]string{"js", r.Pick([]string{"/vr/app", "/vr/app/sub", "/vr/app/node_modules/x", "/vr", "/"}), r.Pick(reqs)})
